@@ -7,6 +7,7 @@ import DiskfsModel.Model.Fat.Fs
 import DiskfsModel.Spec.Tree
 import DiskfsModel.Model.Fat.Geom
 import DiskfsModel.Model.Fat.FlatFs
+import DiskfsModel.Model.Fat.EmptyWrite
 import DiskfsModel.Generated.Fat
 import DiskfsModel.Model.Fat.Boot
 import DiskfsModel.Spec.FatBoot
@@ -221,6 +222,30 @@ def flatOp (args : List String) : String :=
   let files := s.files.map fun f => s!"{nameStr f.name}/{f.size}/{natsStr f.chain}/{toHex (fileContent s.d g.io f.chain f.size)}"
   s!"acc={natsStr acc}\ttable={nonzero s.m 2 (max + 1)}\tfiles={if files.isEmpty then "-" else ";".intercalate files}"
 
+/-- `File.Write` as the code is now, no shortcut for an empty buffer (Model/Fat/EmptyWrite.lean), on a
+    real table: outcome, new size, chain, table and the non-empty WriteAt calls (the zero-fill of a
+    gap).  `early=1`: the tree returns early for `len(p) = 0` (probed per run by the engine). -/
+def zwriteOp (args : List String) : String :=
+  let k := kindOf ((arg args "kind").getD "12")
+  let max := argNatD args "max"
+  let lim := argNatD args "lim" max
+  let g : FGeom := ⟨k, max, lim, ioGeom args⟩
+  let a0 := freezeArr (cmapOf (pairs ((arg args "entries").getD "-"))) (max + 2)
+  let m := ofArr a0
+  let chain := natList ((arg args "chain").getD "-")
+  let size := argNatD args "size"
+  let off := argNatD args "off"
+  let len := argNatD args "len"
+  let data := payload (argNatD args "seed") len
+  let show_ (m' : CMap) (c' : List Nat) (s' : Nat) (ws : List Wr) : String :=
+    let l := (nonEmptyWrs ws).map fun w => s!"{w.off}:{w.data.length}"
+    s!"res=ok\tsize={s'}\tchain={natsStr c'}\ttable={nonzero m' 2 (max + 1)}\tws={if l.isEmpty then "-" else ",".intercalate l}\ttrigger={if emptyWriteTrigger g.io.bpc size off && len == 0 then 1 else 0}"
+  if argNatD args "early" == 1 && len == 0 then show_ m chain size []
+  else match fileWriteRaw g (max + 2) m (fun _ => 0) chain size off data with
+    | .ok m' _ c' s' _ => show_ m' c' s' ((writeH true g.io c' size off data).getD [])
+    | .refused => "res=refused"
+    | .panic => "res=panic"
+
 /-- the specification itself on an op history: ties the engine's reference tree to Spec/Tree.lean -/
 def pathOf (s : String) : List Spec.Name := ((s.splitOn "/").filter (· ≠ "")).map strName
 
@@ -312,6 +337,7 @@ def main : IO Unit := Driver.runLoop fun op args =>
   | "fat.cstep" => Driver.Fat.cstepOp args
   | "fat.geom" => Driver.Fat.geomOp args
   | "fat.flat" => Driver.Fat.flatOp args
+  | "fat.zwrite" => Driver.Fat.zwriteOp args
   | "fat.spec" => Driver.Fat.specOp args
   | "fat.bootcheck" => Driver.Fat.bootcheckOp args
   | "fat.bootenc" => Driver.Fat.bootencOp args
